@@ -124,6 +124,9 @@ def _becomes_same_class():
 
 
 HAND = _becomes_same_class() + [
+    # operands that become a product / sum / neutral constant only through their own flattening (no constant at the top)
+    ("prod2", "x", ("sum2", 0, ("prod2", "y", "z"))), ("sum2", "x", ("prod2", 1, ("sum2", "y", "z"))), ("sum2", "x", ("prod2", 0, "y")),
+    ("prod2", "x", ("sum2", 1, 0)), ("prod3", "x", "y", ("sum2", 0, ("prod2", "z", "x"))), ("sum3", "x", "y", ("prod2", 1, ("sum2", "z", "x"))),
     ("fdiv", "x", ("prod2", 1, 1)), ("rem", "x", ("prod2", 1, 1)), ("fdiv", ("quot", "x", 2), ("sum2", 1, 0)), ("sum2", ("fdiv", "x", 1), "y"),
     ("prod2", "x", ("pow1", ("sum2", "y", 1))), ("pow2", ("pow1", ("sum2", "x", "y"))), ("sum3", ("pow1", ("sum2", "x", 1)), ("neg", "x"), "y"),
     ("pow1", ("prod2", ("sum2", "x", 1), "y")),
@@ -164,6 +167,7 @@ def items(tier):
             for d in HAND + [t for t in full if len(kinds_of(t)) <= 2]:
                 out.append(("rw", rw, _with_symconst(d), True))
     out.append(("liketerms", 0))
+    out.append(("paramleak",))
     return out
 
 
@@ -453,7 +457,38 @@ def check_liketerms(tier):
     return H.finish(res, [], q)
 
 
+def check_paramleak():
+    """state kept between calls: a call with the `parameters` option must not change what later default calls do"""
+    import pymbolic
+    from pymbolic.mapper.collector import TermCollector
+    from pymbolic.mapper.distributor import DistributeMapper, distribute
+    res = ItemResult(item="parameters option does not leak into later calls", sample={"family": "call histories"})
+    a, b, x, y = (p.Variable(n) for n in "abxy")
+    probe = p.Sum((p.Product((a, x)), p.Product((3, x)), p.Product((b, y)), y))
+    before = [repr(distribute(probe)), repr(pymbolic.expand(probe)), repr(TermCollector()(probe))]
+    distribute(p.Product((a, p.Sum((x, 1)))), parameters={a, b})
+    DistributeMapper(TermCollector({a}))(p.Product((a, p.Sum((x, b)))))
+    TermCollector({b})(p.Sum((p.Product((b, x)), x)))
+    after = [repr(distribute(probe)), repr(pymbolic.expand(probe)), repr(TermCollector()(probe))]
+    res.path_assertions += 3
+    for nm, b_, a_ in zip(("distribute", "expand", "TermCollector"), before, after):
+        if b_ != a_:
+            res.status = "violation"
+            res.violations.append(Violation(sig=f"paramleak {nm}", kind="rewrite-state-between-calls",
+                                            detail=f"{nm}({probe}) gave {b_} before and {a_} after unrelated calls that used the "
+                                                   f"`parameters` option", replay={"fn": nm}))
+    out = pymbolic.expand(probe)
+    for bad in nf_violations("expand", out, None)[:1]:
+        res.status = "violation"
+        res.violations.append(Violation(sig="paramleak expand normal form", kind="rewrite-state-between-calls",
+                                        detail=f"expand({probe}) = {out}: {bad}", replay={}))
+    res.paths = 1
+    return res
+
+
 def check_item(item, tier):
+    if item[0] == "paramleak":
+        return check_paramleak()
     if item[0] == "rw":
         return check_rw(item[1], item[2], item[3], tier)
     if item[0] == "twin":
